@@ -204,7 +204,7 @@ def run_c33(ctx):
     work = env.subdir("c33")
     table_path = work + "/table.json"
     dot = work + "/g.dot"
-    res = tlc.run("SseMC", MC_CFG % (level, 3), spec_dir=SPEC_DIR, dump_dot=dot, extra_env={"TABLE_OUT": table_path}, tag="c33mc")
+    res = tlc.run("SseMC", MC_CFG % (level, 3), spec_dir=SPEC_DIR, dump_dot=dot, extra_env={"TABLE_OUT": table_path}, tag="c33mc", timeout=40000)
     ctx.add_model(res, "SseMC", {"Level": level, "MaxPieces": 3})
     if not res.ok:
         ctx.diverge(Divergence("C33", "model", res.error_name or res.error, "SseMC", "specification property violated in the model",
@@ -245,7 +245,7 @@ def run_c33(ctx):
                                        "%s: %s" % (type(ex).__name__, str(ex)[:200]), steps=_short(evs), extra={"wire": repr(wire)}))
             continue
         trs.append(evs)
-    out = trace.validate("SseTrace", TRACE_CFG, SPEC_DIR, trs, batch=ctx.pick(300, 500))
+    out = trace.validate("SseTrace", TRACE_CFG, SPEC_DIR, trs, batch=ctx.pick(300, 500), timeout=40000)
     ctx.states += out.states
     ctx.transitions += out.generated
     if trs:
